@@ -20,6 +20,9 @@
 #include "icinga/user.hpp"
 #include "icinga/notification.hpp"
 #include "icinga/comment.hpp"
+#include "icinga/downtime.hpp"
+#include "icinga/eventcommand.hpp"
+#include "icinga/notificationcommand.hpp"
 #include "icinga/checkcommand.hpp"
 #include "icinga/clusterevents.hpp"
 #include "remote/apilistener.hpp"
@@ -51,6 +54,7 @@ std::map<long, Tree> l_Trees;
 ApiListener::Ptr l_Listener;
 bool l_Init = false;
 std::atomic<long> l_Exec{0};
+std::atomic<long> l_ExecC{0}, l_ExecE{0}, l_ExecN{0};   // executions per kind of command (check / event / notification)
 std::atomic<long> l_Signals{0};
 Shared<boost::asio::ssl::context>::Ptr l_Ssl;
 long l_Ctr = 0;
@@ -116,12 +120,21 @@ void InitOnce()
 	if (l_Init) return;
 	l_Init = true;
 	if (getenv("MZ_DEBUG")) { Logger::EnableConsoleLog(); Logger::SetConsoleLogSeverity(LogWarning); }
-	Function::Ptr probe = new Function("MzProbe", [](const std::vector<Value>&) -> Value { l_Exec++; return Empty; },
+	Function::Ptr probe = new Function("MzProbe", [](const std::vector<Value>&) -> Value { l_Exec++; l_ExecC++; return Empty; },
 		{ "checkable", "cr", "resolvedMacros", "useResolvedMacros" });
 	ScriptGlobal::Set("MzProbe", probe);
+	// native event / notification commands: they only count that they ran (never throw, never answer)
+	Function::Ptr evprobe = new Function("MzEvProbe", [](const std::vector<Value>&) -> Value { l_Exec++; l_ExecE++; return Empty; },
+		{ "checkable", "resolvedMacros", "useResolvedMacros" });
+	ScriptGlobal::Set("MzEvProbe", evprobe);
+	Function::Ptr noprobe = new Function("MzNoProbe", [](const std::vector<Value>&) -> Value { l_Exec++; l_ExecN++; return Empty; },
+		{ "notification", "user", "cr", "itype", "author", "comment", "resolvedMacros", "useResolvedMacros" });
+	ScriptGlobal::Set("MzNoProbe", noprobe);
 	LoadConfig("object CheckCommand \"mzdummy\" { command = [ \"/bin/true\" ] }\n"
 		"object CheckCommand \"mzprobe\" { execute = MzProbe }\n"
 		"object NotificationCommand \"mznotify\" { command = [ \"/bin/true\" ] }\n"
+		"object EventCommand \"mzevprobe\" { execute = MzEvProbe }\n"
+		"object NotificationCommand \"mznoprobe\" { execute = MzNoProbe }\n"
 		"object User \"mzuser\" { }\n");
 	l_Listener = new ApiListener();
 	l_Listener->SetName("api", true);
@@ -158,7 +171,7 @@ std::vector<int> Children(const Tree& t, int z)
 	return r;
 }
 
-Tree& GetTree(long id, const std::string& spec)
+Tree& GetTree(long id, const std::string& spec, const std::string& xspec = "")
 {
 	auto it = l_Trees.find(id);
 	if (it != l_Trees.end()) return it->second;
@@ -205,6 +218,28 @@ Tree& GetTree(long id, const std::string& spec)
 			objs("k" + z, za, t.pfx + "e" + std::to_string(ch[0]) + "a");
 	}
 	objs("nz", "", "");
+	// cross groups  x<h>_<s>_<o>: Host in zone h, its Service "s" in zone s, and the objects attached to them - Notification "n"
+	// and Downtime "d" on the service, Notification "hn" and Comment "c" on the host - in zone o  (n = no zone attribute).
+	// Related objects thus sit in DIFFERENT zones; h and s must not be global (Host/Service validation), o may be.
+	{
+		std::istringstream xs(xspec);
+		std::string g;
+		while (std::getline(xs, g, ',')) {
+			if (g.empty()) continue;
+			std::string hz, sz, oz;
+			std::istringstream gs(g);
+			std::getline(gs, hz, '_'); std::getline(gs, sz, '_'); std::getline(gs, oz, '_');
+			auto zattr = [&](const std::string& z) { return z == "n" ? std::string() : "  zone = \"" + ZName(t, z) + "\"\n"; };
+			std::string h = t.pfx + "hx" + g;
+			c << "object Host \"" << h << "\" {\n  check_command = \"mzdummy\"\n  enable_active_checks = false\n  max_check_attempts = 3\n" << zattr(hz) << "}\n";
+			c << "object Service \"s\" {\n  host_name = \"" << h << "\"\n  check_command = \"mzdummy\"\n  enable_active_checks = false\n" << zattr(sz) << "}\n";
+			c << "object Notification \"n\" {\n  host_name = \"" << h << "\"\n  service_name = \"s\"\n  command = \"mznotify\"\n  users = [ \"mzuser\" ]\n" << zattr(oz) << "}\n";
+			c << "object Notification \"hn\" {\n  host_name = \"" << h << "\"\n  command = \"mznotify\"\n  users = [ \"mzuser\" ]\n" << zattr(oz) << "}\n";
+			c << "object Comment \"c\" {\n  host_name = \"" << h << "\"\n  author = \"a\"\n  text = \"t\"\n" << zattr(oz) << "}\n";
+			c << "object Downtime \"d\" {\n  host_name = \"" << h << "\"\n  service_name = \"s\"\n  author = \"a\"\n  comment = \"t\"\n"
+			  << "  start_time = 3000000000\n  end_time = 3000003600\n" << zattr(oz) << "}\n";
+		}
+	}
 	// no relaying while there may be no local zone yet
 	static_cast<ConfigObject *>(l_Listener.get())->SetActive(false, true);
 	try {
@@ -248,7 +283,7 @@ struct Snap {
 	std::map<std::string, std::string> objs;   // Type!name -> json
 	std::map<std::string, std::string> files;  // relative path -> sha256 (dirs: "dir")
 	std::map<std::string, size_t> out;         // endpoint name -> queued messages
-	long exec, signals;
+	long exec, signals, execC, execE, execN;
 	double rlp;
 };
 
@@ -322,7 +357,7 @@ Snap TakeSnap(const Endpoint::Ptr& sender, const std::string& cur)
 	for (auto& kv : l_Trees)
 		for (auto& c : kv.second.conns)
 			s.out[c.first] = c.second->m_OutgoingMessagesQueue.size();
-	s.exec = l_Exec;
+	s.exec = l_Exec; s.execC = l_ExecC; s.execE = l_ExecE; s.execN = l_ExecN;
 	s.signals = l_Signals;
 	s.rlp = sender ? sender->GetRemoteLogPosition() : 0;
 	return s;
@@ -336,7 +371,7 @@ Host::Ptr HostOf(const Tree& t, const std::string& obj) { return Host::GetByName
 VOP(mz_tree)
 {
 	InitOnce();
-	GetTree(a.num("id"), a.str("z"));
+	GetTree(a.num("id"), a.str("z"), a.str("x", ""));
 }
 
 // a zone-less Endpoint must be rejected at config load (hypothesis mz_zoned of the theorems)
@@ -397,10 +432,15 @@ VOP(mz_msg)
 	Host::Ptr host = HostOf(t, obj);
 	if (!host) throw std::runtime_error("mz_msg: no such object " + obj);
 	Service::Ptr svc = host->GetServiceByShortName("s");
-	Notification::Ptr notif = Notification::GetByName(host->GetName() + "!s!n");
+	// nt=n|hn: the service's / the host's notification; ro=c|d: comment (on the host) / downtime (on the service);
+	// ck=h|s: which checkable the message names (default: alternating)
+	std::string nt = a.str("nt", "n"), ro = a.str("ro", "c"), cks = a.str("ck", "");
+	Notification::Ptr notif = Notification::GetByName(host->GetName() + (nt == "hn" ? "!hn" : "!s!n"));
 	Comment::Ptr comment = Comment::GetByName(host->GetName() + "!c");
-	if (!svc || !notif || !comment) throw std::runtime_error("mz_msg: fixture object missing");
-	bool useSvc = (n % 2) == 0;
+	Downtime::Ptr downtime = ro == "d" ? Downtime::GetByName(host->GetName() + "!s!d") : Downtime::Ptr();
+	if (!svc || !notif || !comment || (ro == "d" && !downtime)) throw std::runtime_error("mz_msg: fixture object missing");
+	bool useSvc = cks.empty() ? (n % 2) == 0 : cks == "s";
+	bool qmode = method == "event::ExecuteCommand" && !a.str("ct", "").empty();
 	Checkable::Ptr ck = useSvc ? Checkable::Ptr(svc) : Checkable::Ptr(host);
 	Dictionary::Ptr p = new Dictionary();
 	auto addCk = [&]() { p->Set("host", host->GetName()); if (useSvc) p->Set("service", "s"); };
@@ -444,6 +484,23 @@ VOP(mz_msg)
 		p->Set("host", String("mzvirtual" + std::to_string(n))); p->Set("command_type", "check_command"); p->Set("command", "mzprobe");
 		p->Set("macros", new Dictionary());
 		if (var == "localep") p->Set("endpoint", localEp->GetName());
+		if (qmode) {
+			// command-execution family: every kind of command, with / without "source" (execute-command API action),
+			// deadline passed or not, command present or not, params.host naming a checkable the receiver has or not
+			std::string ct = a.str("ct");
+			bool cx = a.num("cx", 1) != 0;
+			if (ct == "check") { p->Set("command_type", "check_command"); p->Set("command", cx ? "mzprobe" : "mz-no-such-command"); }
+			else if (ct == "event") { p->Set("command_type", "event_command"); p->Set("command", cx ? "mzevprobe" : "mz-no-such-command"); }
+			else if (ct == "notif") { p->Set("command_type", "notification_command"); p->Set("command", cx ? "mznoprobe" : "mz-no-such-command"); }
+			else { p->Set("command_type", "mz_other_command"); p->Set("command", cx ? "mzprobe" : "mz-no-such-command"); }
+			p->Set("macros", new Dictionary({ { "notification_author", "mz" } }));
+			p->Set("user", "mzuser"); p->Set("notification", String("mzvirtualn" + std::to_string(n)));
+			if (a.num("src", 0) != 0) {
+				p->Set("source", String("mzsrc" + std::to_string(n)));
+				p->Set("deadline", a.num("dl", 0) != 0 ? now - 10 : now + 60);
+			}
+			if (a.num("hl", 0) != 0) { p->Set("host", host->GetName()); if (useSvc) p->Set("service", "s"); }
+		}
 		if (xmode) {
 			// forwarding family: "endpoint" names another endpoint (or nothing / an unknown name); the checkable exists or not;
 			// every endpoint of the forest announces (or not) the ExecuteArbitraryCommand capability
@@ -477,7 +534,10 @@ VOP(mz_msg)
 	} else if (method == "event::UpdateExecutions") {
 		addCk(); p->Set("executions", new Dictionary({ { String("u" + std::to_string(n)), new Dictionary({ { "pending", true }, { "deadline", now + 60 } }) } }));
 	} else if (method == "event::SetRemovalInfo") {
-		p->Set("object_type", "Comment"); p->Set("object_name", comment->GetName()); p->Set("removed_by", String("mz" + std::to_string(n)));
+		if (ro == "x") { p->Set("object_type", "Host"); p->Set("object_name", host->GetName()); }   // a type the handler does not know
+		else if (downtime) { p->Set("object_type", "Downtime"); p->Set("object_name", downtime->GetName()); }
+		else { p->Set("object_type", "Comment"); p->Set("object_name", comment->GetName()); }
+		p->Set("removed_by", String("mz" + std::to_string(n)));
 		p->Set("remove_time", now + n);
 	} else if (method == "event::Heartbeat") {
 		p->Set("timeout", 120);
@@ -548,6 +608,15 @@ VOP(mz_msg)
 		p->Set("host", host->GetName());
 	}
 	(void)pki;
+	if (obj[0] == 'x') {
+		// cross groups: bring the RELATED checkable (the host of the service named / the service of the host named) into the same
+		// prepared state as the one the message names, so that a handler that also wrote to it would visibly change it
+		Checkable::Ptr other = useSvc ? Checkable::Ptr(host) : Checkable::Ptr(svc);
+		if (other->GetForceNextCheck() != ck->GetForceNextCheck()) other->SetForceNextCheck(ck->GetForceNextCheck());
+		if (other->GetForceNextNotification() != ck->GetForceNextNotification()) other->SetForceNextNotification(ck->GetForceNextNotification());
+		if (method == "event::SetAcknowledgement" && other->IsAcknowledged()) other->ClearAcknowledgement("prep", now);
+		if (method == "event::ClearAcknowledgement" && !other->IsAcknowledged()) other->AcknowledgeProblem("prep", "prep", AcknowledgementNormal, false, false, now, 0);
+	}
 
 	Dictionary::Ptr msg = new Dictionary({ { "jsonrpc", "2.0" }, { "method", String(method) }, { "params", p } });
 	std::string claim = a.str("claim", "-");
@@ -635,6 +704,58 @@ VOP(mz_msg)
 	if (xmode) {
 		auto lst = [](const std::set<long>& zs) { std::string r; for (long z : zs) { if (!r.empty()) r += ","; r += std::to_string(z); } return r.empty() ? std::string("-") : r; };
 		o << " xc=" << lst(xc) << " xd=" << lst(xd);
+	}
+	if (a.num("chz", 0) != 0) {
+		// WHICH objects changed: zone attributes of the checkables / notifications / comments / downtimes of this forest whose
+		// serialised state differs (n = no zone attribute, . = none changed)
+		std::set<std::string> zs;
+		for (auto& kv : after.objs) {
+			auto it = before.objs.find(kv.first);
+			if (it == before.objs.end() || it->second == kv.second) continue;
+			size_t bang = kv.first.find('!');
+			std::string ty = kv.first.substr(0, bang), nm = kv.first.substr(bang + 1);
+			if (ty != "Host" && ty != "Service" && ty != "Notification" && ty != "Comment" && ty != "Downtime") continue;
+			if (nm.compare(0, t.pfx.size(), t.pfx) != 0) continue;
+			ConfigObject::Ptr co = ConfigObject::GetObject(ty, nm);
+			if (!co) continue;
+			std::string zn = co->GetZoneName().GetData();
+			if (zn.empty()) zs.insert("n");
+			else if (zn.compare(0, t.pfx.size() + 1, t.pfx + "z") == 0) zs.insert(zn.substr(t.pfx.size() + 1));
+			else zs.insert("?");
+		}
+		std::string r;
+		for (auto& z : zs) { if (!r.empty()) r += ","; r += z; }
+		o << " chz=" << (r.empty() ? "." : r);
+	}
+	if (qmode) {
+		// which kinds of command ran, and what was queued for the SENDING endpoint (its persistent connection):
+		// 0 nothing, 1 an UNKNOWN check result, 1000+exit an event::ExecutedCommand, 9999 anything else / more than one
+		std::string ex;
+		if (after.execC != before.execC) ex += "c";
+		if (after.execE != before.execE) ex += "e";
+		if (after.execN != before.execN) ex += "n";
+		if (after.exec - before.exec > 1) ex += "+";
+		long rp = 0;
+		if (sndEp) {
+			auto ci = t.conns.find(sndEp->GetName().GetData());
+			if (ci != t.conns.end()) {
+				const auto& q = ci->second->m_OutgoingMessagesQueue;
+				size_t from = before.out[ci->first];
+				for (size_t i = from; i < q.size(); i++) {
+					Dictionary::Ptr qm = JsonDecode(q[i]);
+					String qmeth = qm->Get("method");
+					Dictionary::Ptr qp = qm->Get("params");
+					long code = 9999;
+					if (qmeth == "event::ExecutedCommand" && qp && qp->Contains("exit")) code = 1000 + (long)(double)qp->Get("exit");
+					else if (qmeth == "event::CheckResult" && qp) {
+						Dictionary::Ptr qcr = qp->Get("cr");
+						if (qcr && (int)(double)qcr->Get("state") == 3) code = 1;
+					}
+					rp = (rp == 0) ? code : 9999;
+				}
+			}
+		}
+		o << " ex=" << (ex.empty() ? "-" : ex) << " rp=" << rp;
 	}
 	if (!a.str("cz", "").empty()) {
 		// zone attribute of the object config::UpdateObject was to create (- = no such object now / no zone)
